@@ -18,6 +18,7 @@ CHECKS = {
         'level_text': 'path exploration + z3 decide that ParseXMLResponse returns only an assertion of the document that is covered by a signature of a trusted key (its own, or the Response\'s) and never when the Response carries a signature of an untrusted key; counterexamples replayed natively on real signed XML.',
         'level_note': FLOW_NOTE + 'Harness_C01_trust adds the fingerprint and pinned-certificate trust configurations and four KeyInfo layouts per signature (signer certificate, none, signer+other, other+signer; goxmldsig: the first KeyInfo certificate must be a root and is the verification key). Outside: XML-level wrapping that defeats goxmldsig itself, encrypted assertions on the SP side.',
         'harnesses': [
+            {'name': 'Harness_C01_chardata', 'pkg': 'saml', 'replay': 'direct', 'must_reach': ['decoded'], 'opts': {'no_ascii_model': False}},
             {'name': 'Harness_C01_encrypted', 'pkg': 'saml', 'replay': 'direct', 'must_reach': ['accepted', 'rejected', 'accepted-by-inner-signature', 'accepted-by-response-signature'], 'validate_labels': ['accepted-by-inner-signature', 'accepted-by-response-signature', 'rejected'], 'label_prefix': 'C01', 'opts': {'K': 1}},
             {'name': 'Harness_C04_artifact', 'pkg': 'saml', 'replay': 'direct', 'must_reach': ['accepted', 'rejected', 'accepted-by-artifact-signature'], 'validate_labels': ['accepted-by-artifact-signature'], 'label_prefix': 'C01', 'opts': {'K': 1}},
             {'name': 'Harness_C01_flow', 'pkg': 'saml', 'replay': 'direct', 'must_reach': ['accepted', 'rejected', 'accepted-by-response-signature', 'accepted-by-assertion-signature'],
@@ -82,7 +83,7 @@ CHECKS = {
         'level_text': 'z3 decides, for all request fields, instants, tolerances and registry contents within the shape bound, that Validate succeeds only for fresh, version-2.0, correctly addressed requests from a registered issuer and that the selected endpoint is exactly the registered endpoint the documented priority picks; replayed natively.',
         'level_note': 'real IdpAuthnRequest.Validate, getACSEndpoint, IdentityProvider.Metadata executed from SSA; request = arbitrary AuthnRequest struct (Issuer nil-able) marshalled by encoding/xml (assumed to round-trip), registry = harness provider answering found/ErrNotExist/other, metadata with <=1 SPSSODescriptor x <=2 ACS endpoints (quick) / <=2 x <=2 (thorough), arbitrary Binding/Location/Index/IsDefault. Outside: request decoding (base64/flate), ServeSSO HTTP plumbing.',
         'harnesses': [
-            {'name': 'Harness_C05_validate', 'pkg': 'saml', 'replay': 'direct', 'must_reach': ['validated', 'rejected'],
+            {'name': 'Harness_C05_validate', 'pkg': 'saml', 'replay': 'direct', 'must_reach': ['validated', 'rejected', 'received-over-http'],
              'opts': {'time_res': 1000000},
              'quick': {'K': 1, 'lens_by_tag': [['SPSSODescriptors', [1, 0]], ['AssertionConsumerServices', [1, 0, 2]]]},
              'thorough': {'K': 1, 'lens_by_tag': [['SPSSODescriptors', [1, 0, 2]], ['AssertionConsumerServices', [1, 0, 2]]]}},
@@ -158,6 +159,7 @@ CHECKS = {
         'level_text': 'every path of Decrypt over arbitrary EncryptedData/EncryptedKey trees, keys of every admitted Go type and every cipher-value length class is explored with the crypto panic preconditions active; a path ending in a panic is a violation; stripPadding is decided against its specification for every buffer content; replayed natively with the real crypto.',
         'level_note': 'real Decrypt, CBC/GCM/RSA.Decrypt, getCiphertext, validateRSAKeyIfPresent, stripPadding and the etree path code executed from SSA; crypto primitives are uninterpreted with their documented panic preconditions (IV length = block size, input a whole number of blocks, nonce length 12), length laws and the inverse law. Trees: every part optional, algorithm known/unknown/absent, nested EncryptedKey to depth 1 (quick) / 2 (thorough), repeated keys, cipher values of 19 boundary lengths (quick) / every length 0..65 (thorough) or not base64, keys []byte of 0/8/16/24/32/33 bytes, two RSA keys, nil, string. Outside: GCM tamper detection (a property of the AEAD primitive).',
         'harnesses': [
+            {'name': 'Harness_C11_certmatch', 'pkg': 'xmlenc', 'replay': 'direct', 'must_reach': ['decrypted', 'rejected'], 'opts': {'params': {'rand.mayfail': 0}}},
             {'name': 'Harness_C11_strip', 'pkg': 'xmlenc', 'replay': 'direct', 'must_reach': ['returned', 'stripped'],
              'quick': {'params': {'strip.maxlen': 18}}, 'thorough': {'params': {'strip.maxlen': 34}}},
             {'name': 'Harness_C11_padding', 'pkg': 'xmlenc', 'replay': 'direct', 'must_reach': ['returned', 'rejected', 'decrypted'], 'validate_labels': ['rejected', 'decrypted'],
@@ -174,7 +176,7 @@ CHECKS = {
         'level_text': 'z3 decides, for all configuration strings at once, that the request struct and its Element() form carry the configured issuer, destination, ACS URL, binding, name-ID policy and an ID that is the hex form of >=16 bytes drawn from RandReader in this call.',
         'level_note': 'real MakeAuthenticationRequest, nameIDFormat, randomBytes, AuthnRequest.Element and the etree builder code executed from SSA; RandReader is a harness reader returning solver-chosen bytes. Outside: deflate/base64/XML serialisation (library loops).',
         'harnesses': [
-            {'name': 'Harness_C12_authnrequest', 'pkg': 'saml', 'replay': 'direct', 'must_reach': ['made']},
+            {'name': 'Harness_C12_authnrequest', 'pkg': 'saml', 'replay': 'direct', 'must_reach': ['made'], 'opts': {'params': {'rand.short': 1}}},
             {'name': 'Harness_C12_redirect', 'pkg': 'saml', 'replay': 'direct', 'must_reach': ['redirect', 'signed-redirect'], 'validate_labels': ['redirect', 'signed-redirect'],
              'label_prefix': 'C12/', 'quick': {'params': {'relay.maxlen': 2, 'rand.mayfail': 0}}, 'thorough': {'params': {'relay.maxlen': 3, 'rand.mayfail': 0}}},
             {'name': 'Harness_C12_logout_redirect', 'pkg': 'saml', 'replay': 'direct', 'must_reach': ['logout-request', 'logout-response'],
